@@ -282,6 +282,11 @@ func (s *Symbolizer) of(v ssa.Value) *Sym {
 							return s.Of(st)
 						}
 					}
+					// a cell that is only stored and loaded (a named result kept in memory because of
+					// a defer): the value of the last store before this load on a straight line
+					if w := lastStoreBefore(v); w != nil {
+						return s.Of(w)
+					}
 					return &Sym{Op: "local", Name: strings.TrimPrefix(a.Name, "")}
 				}
 				return &Sym{Op: "path", Name: a.Name}
